@@ -263,7 +263,13 @@ func (r *Repo) FetchRevision(ctx context.Context, projectPath string, revision v
 			if h.DieAfterFiles >= 0 && n == h.DieAfterFiles {
 				os.Exit(DieExitCode) // process death: nothing deferred runs, files so far persist
 			}
-			if h.ParkAfterFiles >= 0 && n == h.ParkAfterFiles && h.parkOnce.CompareAndSwap(false, true) {
+			if h.ParkKey != "" {
+				// park the first checkout of one particular (directory, revision)
+				if h.ParkAfterFiles == i && h.ParkKey == r.spec.Addr+"/"+fmt.Sprintf("%s@%d", dir, rev.idx) && h.parkOnce.CompareAndSwap(false, true) {
+					h.Parked <- struct{}{}
+					<-h.Release
+				}
+			} else if h.ParkAfterFiles >= 0 && n == h.ParkAfterFiles && h.parkOnce.CompareAndSwap(false, true) {
 				h.Parked <- struct{}{}
 				<-h.Release
 			}
@@ -296,8 +302,11 @@ type Hooks struct {
 	// ParkAfterFiles >= 0: the first checkout that reaches that many written files signals
 	// Parked and waits for Release before it continues.
 	ParkAfterFiles int
-	Parked         chan struct{}
-	Release        chan struct{}
+	// ParkKey != "": only the first checkout with this FetchKey parks, after ParkAfterFiles of
+	// ITS files.
+	ParkKey string
+	Parked  chan struct{}
+	Release chan struct{}
 
 	written  atomic.Int64
 	parkOnce atomic.Bool
